@@ -10,6 +10,8 @@ HB_BUCKET = "hashbrown::raw::Bucket"
 HB_INTO = "hashbrown::raw::RawIntoIter"
 HB_DRAIN = "hashbrown::raw::RawDrain"
 HB_PAR = "hashbrown::raw::rayon::RawParIter"
+HB_PAR_INTO = "hashbrown::raw::rayon::RawIntoParIter"
+HB_PAR_DRAIN = "hashbrown::raw::rayon::RawParDrain"
 OPTION = "core::option::Option"
 
 MAIN, LEFT, OLD, CURSOR = "MAIN", "LEFT", "OLD", "CURSOR"
@@ -74,7 +76,7 @@ class Roles:
         self.B, self.B_bucket, self.B_flag = cands[0][0]["path"], cands[0][1], cands[0][2]
 
         # --- composite iterators: bare X and Option<X'> of hashbrown iterator families
-        fam = {HB_ITER: "iter", HB_INTO: "into", HB_DRAIN: "drain", HB_PAR: "par"}
+        fam = {HB_ITER: "iter", HB_INTO: "into", HB_DRAIN: "drain", HB_PAR: "par", HB_PAR_INTO: "par_into", HB_PAR_DRAIN: "par_drain"}
         self.composites = {}  # adt path -> dict(main=i, old=i, family)
         for a in facts.adts.values():
             if a["kind"] != "Struct":
